@@ -4,8 +4,9 @@ from __future__ import annotations
 import typed
 
 ID = "C08"
-THEOREMS = ["where_keeps_item_type", "where_rejects_nonbool", "select_gives_body_type", "selectMany_gives_element_type", "unwrapIterable_iterable", "resolveRet_generic"]
-LEANCHECKER_MODULES = ["Fadl.Props.C08"]  # re-checked by leanchecker in the thorough tier
+THEOREMS = ["follow_tySound", "follow_type_is_declared", "streamOp_type_is_declared", "follow_rewrites_calls_only", "follow_type_independent_of_state",
+            "where_keeps_item_type", "where_rejects_nonbool", "select_gives_body_type", "selectMany_gives_element_type", "unwrapIterable_iterable", "resolveRet_generic"]
+LEANCHECKER_MODULES = ["Fadl.Props.C08", "Fadl.Props.C08Sound"]  # re-checked by leanchecker in the thorough tier
 RULE = (
     "generated class models (gen/classes.py: Trk, Cal, Jet, Vec[T](Iterable[T]), JVec(Vec[Jet]), Evt, an optional registered "
     "collection class, two registered functions; 0-4 parameters per method with a random suffix of defaults of int/float/"
@@ -15,7 +16,7 @@ RULE = (
     "dictionary fields, lambda parameter names re-used across nesting levels, method names shared between classes; "
     "non-trivial = every case; distinct = distinct (class model, operator, lambda source)"
 )
-EXPLANATION = ('Theorems: where_keeps_item_type, where_rejects_nonbool, select_gives_body_type, selectMany_gives_element_type (stream-level typing rules), unwrapIterable through custom Iterable subclasses and re-binding generic subclasses (worked instances), resolveRet_generic. Correspondence: as C07 (the item type of the derived stream is part of the compared observation). Oracle: the generator knows the type of every expression it builds from the annotations (method returns with class type variables substituted through Vec[T](Iterable[T]), JVec(Vec[Jet]), ListGroups[T](Grouped[Iterable[T]]); First/Count; comparisons/and/or; int/float promotion; dict fields) and compares with stream.item_type; non-boolean Where => ValueError. The soundness theorem against a declarative typing relation is not proved yet (partial).')
+EXPLANATION = ('Main theorem follow_tySound (Props/C08Sound.lean; induction over the fuel through all five mutually recursive functions of the follower model: follow, followL, methodCall, candLoop, onStreamObj): for EVERY class model, environment, stream state and expression, whenever the follower accepts the expression the type it reports is the one the declared-type checker tyOf (Model/TypeSpec.lean) computes for the expression THE USER WROTE. tyOf is the specification: it reads only declarations (classes, inheritance chains, type parameters, signatures, return annotations, registered collection classes) and the types of the names in scope; it has no stream state, runs no callback, rewrites no tree and fills in no default value. Its rules are the ones the property states: a method call gives the annotated return type with the class type variables substituted along the inheritance chain (resolveRet / findMethod), Select on a collection gives Iterable of the type of the lambda body under the parameter bound to the item type, SelectMany the element type of that, Where keeps the item type and refuses a non-boolean filter; subscripting and First give the element type (unwrapIterable through custom Iterable subclasses), comparisons / and / or / not give bool, arithmetic follows Any > float > true-division > int (binTy), a conditional needs equal or two number-like branch types, a field of a dictionary literal or of a value built from one gives the type of that field, a constant index into a tuple literal the type of that element. Corollaries: follow_type_is_declared, streamOp_type_is_declared (the item type of the derived stream: streamOpTy), follow_type_independent_of_state, follow_rewrites_calls_only (Sim: the returned tree differs from the input in call nodes only). The proof needs that filling in defaults, literal evaluation and dictionary-key lookup do not see the rewriting of call nodes (Lemmas/FollowSim.lean). Direction proved: follower accepts => declared type; the converse (every expression tyOf types is accepted) is NOT claimed: check_ast can refuse a filled-in default (e.g. None), which tyOf does not look at. Stream-level and local rules as before: where_keeps_item_type, where_rejects_nonbool, select_gives_body_type, selectMany_gives_element_type, resolveRet_generic. Correspondence: as C07 (the item type of the derived stream is part of the compared observation), and additionally the specification itself is run against the implementation: for every generated lambda the implementation accepts, streamOpTy on the lambda as written must give the implementation\'s item type (unit streamOpTy(spec); counted as spec:item-type-compared in the distribution). Oracle: the generator knows the type of every expression it builds from the annotations and compares with stream.item_type; non-boolean Where => ValueError. Preparing this theorem exposed a model infidelity (the model re-followed rewritten subtrees where the code looks up recorded types; differs under renaming callbacks), corrected in the model and the generator (DESIGN 12.6a).')
 ASSUMPTIONS = ['typing introspection is replaced by the Ty algebra; multiple inheritance is outside the model and the generator']
 
 
